@@ -603,6 +603,117 @@ Section PathProofs.
 
   Lemma extend_path_conds : forall (p parent : path), conditions (extend_path cond p parent) = conditions parent.
   Proof. reflexivity. Qed.
+
+  (* ---- conditions vs solver: the solver holds the fresh solver's content plus a SUBSET of
+     the conditions; all of them as long as no ancestor state was sliced *)
+  Lemma append_both : forall p c b,
+    (solver (append p c b) = solver p /\ conds (append p c b) = conds p /\ sliced (append p c b) = sliced p) \/
+    (solver (append p c b) = (solver p ++ [simp c])%list /\ conds (append p c b) = (conds p ++ [simp c])%list /\
+     sliced (append p c b) = sliced p).
+  Proof.
+    intros p c b. unfold SmtTextModel.append.
+    destruct (is_true (simp c)); [left; auto|].
+    destruct (has_cond cond cond_eqb (simp c) (conditions p)); [left; auto|].
+    destruct (get_related cond p (vars (simp c))) as [rel m1]. right. simpl. rewrite map_app. auto.
+  Qed.
+
+  Lemma extend_both : forall cs p b, exists l,
+    solver (extend p cs b) = (solver p ++ l)%list /\ conds (extend p cs b) = (conds p ++ l)%list /\
+    sliced (extend p cs b) = sliced p.
+  Proof.
+    unfold SmtTextModel.extend.
+    induction cs as [|c cs IH]; intros p b; simpl fold_left.
+    - exists []. rewrite !app_nil_r. auto.
+    - destruct (IH (append p c b) b) as (l & E1 & E2 & E3).
+      destruct (append_both p c b) as [(A1 & A2 & A3)|(A1 & A2 & A3)].
+      + exists l. rewrite E1, E2, E3, A1, A2, A3. auto.
+      + exists (simp c :: l). rewrite E1, E2, E3, A1, A2, A3. rewrite <- !app_assoc. auto.
+  Qed.
+
+  Lemma select_idx_incl : forall l idx keep c, In c (select_idx cond l idx keep) -> In c (map fst l).
+  Proof.
+    induction l as [|[c0 b0] l IH]; intros idx keep c H; simpl in *; [exact H|].
+    destruct (existsb (Nat.eqb idx) keep); [destruct H as [->|H]; [left; reflexivity | right; eapply IH; exact H] | right; eapply IH; exact H].
+  Qed.
+
+  Notation bases := (bases cond).
+  Notation no_slice := (no_slice cond).
+  Notation last_base := (last_base cond).
+
+  Lemma step_solver_incl : forall p o q B, step p o = Some q ->
+    (forall c, In c (solver p) -> In c B \/ In c (conds p)) ->
+    (forall c, In c (solver q) -> In c (bases B [o]) \/ In c (conds q)).
+  Proof.
+    intros p o q B H Hin. unfold SmtTextModel.bases.
+    assert (Hext : forall cs (p0 : path) b, (forall c, In c (solver p0) -> In c B \/ In c (conds p0)) ->
+               forall c, In c (solver (extend p0 cs b)) -> In c B \/ In c (conds (extend p0 cs b))).
+    { intros cs p0 b H0 c Hc. destruct (extend_both cs p0 b) as (l & E1 & E2 & _). rewrite E1 in Hc. rewrite E2.
+      apply in_app_or in Hc. destruct Hc as [Hc|Hc]; [|right; apply in_or_app; right; exact Hc].
+      destruct (H0 c Hc) as [H1|H1]; [left; exact H1 | right; apply in_or_app; left; exact H1]. }
+    destruct o as [c0 b|c0|c0| |vs|s1]; simpl in H; simpl flat_map; rewrite ?app_nil_r.
+    - inversion H; subst q. apply (Hext [c0] p b Hin).
+    - unfold branch in H. destruct (pending p); [|discriminate]. inversion H; subst q.
+      unfold SmtTextModel.activate. cbn [solver conditions pending]. apply (Hext [c0]). exact Hin.
+    - unfold branch in H. destruct (pending p); [|discriminate]. inversion H; subst q. exact Hin.
+    - inversion H; subst q. unfold SmtTextModel.activate. cbn [solver conditions]. apply Hext. exact Hin.
+    - unfold slice in H. destruct (sliced p); [discriminate|]. destruct (get_related cond p vs) as [rel m'].
+      inversion H; subst q. exact Hin.
+    - inversion H; subst q. unfold extend_path, empty_path, solver_additions. cbn [solver conditions].
+      intros c Hc. apply in_app_or in Hc. destruct Hc as [Hc|Hc]; [left; apply in_or_app; right; exact Hc|].
+      right. destruct (sliced p); [apply (select_idx_incl _ _ _ _ Hc) | exact Hc].
+  Qed.
+
+  Lemma run_solver_incl : forall ops p q B, run p ops = Some q ->
+    (forall c, In c (solver p) -> In c B \/ In c (conds p)) ->
+    (forall c, In c (solver q) -> In c (bases B ops) \/ In c (conds q)).
+  Proof.
+    induction ops as [|o ops IH]; intros p q B H Hin; simpl in H.
+    - inversion H; subst q. unfold SmtTextModel.bases. simpl. rewrite app_nil_r. exact Hin.
+    - destruct (step p o) as [p'|] eqn:Hs; [|discriminate].
+      pose proof (IH p' q (bases B [o]) H (step_solver_incl _ _ _ _ Hs Hin)) as H'.
+      intros c Hc. destruct (H' c Hc) as [H1|H1]; [left | right; exact H1].
+      unfold SmtTextModel.bases in *. simpl in *. rewrite app_nil_r in H1. rewrite <- app_assoc in H1. exact H1.
+  Qed.
+
+  Theorem solver_subset_of_conditions : forall ops s0 p,
+    run (empty_path cond s0) ops = Some p ->
+    forall c, In c (solver p) -> In c (bases s0 ops) \/ In c (conds p).
+  Proof.
+    intros ops s0 p H. apply (run_solver_incl ops _ _ s0 H). intros c Hc. left. exact Hc.
+  Qed.
+
+  Lemma run_solver_full : forall ops p q B, run p ops = Some q -> no_slice ops = true ->
+    sliced p = None -> solver p = (B ++ conds p)%list ->
+    sliced q = None /\ solver q = (last_base B ops ++ conds q)%list.
+  Proof.
+    induction ops as [|o ops IH]; intros p q B H Hns Hsl Hso; simpl in H.
+    - inversion H; subst q. auto.
+    - destruct (step p o) as [p'|] eqn:Hs; [|discriminate].
+      simpl in Hns. apply andb_true_iff in Hns. destruct Hns as [Hn1 Hn2].
+      assert (Hext : forall cs (p0 : path) b, sliced p0 = None -> solver p0 = (B ++ conds p0)%list ->
+                 sliced (extend p0 cs b) = None /\ solver (extend p0 cs b) = (B ++ conds (extend p0 cs b))%list).
+      { intros cs p0 b H0 H1. destruct (extend_both cs p0 b) as (l & E1 & E2 & E3).
+        rewrite E1, E2, E3, H1, app_assoc. auto. }
+      destruct o as [c0 b|c0|c0| |vs|s1]; simpl in Hs; try discriminate; simpl.
+      + inversion Hs; subst p'. destruct (Hext [c0] p b Hsl Hso) as [E1 E2]. apply (IH _ _ B H Hn2 E1 E2).
+      + unfold branch in Hs. destruct (pending p); [|discriminate]. inversion Hs; subst p'.
+        apply (IH _ _ B H Hn2).
+        * unfold SmtTextModel.activate. cbn [sliced conditions pending]. apply (Hext [c0]); [reflexivity | exact Hso].
+        * unfold SmtTextModel.activate. cbn [solver sliced conditions pending]. apply (Hext [c0]); [reflexivity | exact Hso].
+      + unfold branch in Hs. destruct (pending p); [|discriminate]. inversion Hs; subst p'.
+        apply (IH _ _ B H Hn2); [reflexivity | exact Hso].
+      + inversion Hs; subst p'. unfold SmtTextModel.activate in *.
+        apply (IH _ _ B H Hn2); cbn [sliced solver conditions]; apply Hext; assumption.
+      + inversion Hs; subst p'. apply (IH _ _ s1 H Hn2); [reflexivity|].
+        unfold extend_path, empty_path, solver_additions. cbn [solver conditions]. rewrite Hsl. reflexivity.
+  Qed.
+
+  Theorem solver_holds_all_when_unsliced : forall ops s0 p,
+    run (empty_path cond s0) ops = Some p -> no_slice ops = true ->
+    solver p = (last_base s0 ops ++ conds p)%list.
+  Proof.
+    intros ops s0 p H Hns. apply (run_solver_full ops _ _ s0 H Hns); [reflexivity|]. simpl. rewrite app_nil_r. reflexivity.
+  Qed.
 End PathProofs.
 
 Lemma slicing_keeps_conditions : forall (cond : Type) (p q parent : path cond) vs,
